@@ -164,7 +164,7 @@ bool cmb_condition_signal(struct cmb_condition *cvp)
     return (cnt > 0u);
 }
 
-bool cmi_condition_cancel(struct cmb_condition *cvp,
+bool cmb_condition_cancel(struct cmb_condition *cvp,
                           struct cmb_process *pp)
 {
     cmb_assert_release(cvp != NULL);
@@ -177,7 +177,7 @@ bool cmi_condition_cancel(struct cmb_condition *cvp,
     return cmb_resourceguard_cancel(&(cvp->guard), pp);
 }
 
-bool cmi_condition_remove(struct cmb_condition *cvp,
+bool cmb_condition_remove(struct cmb_condition *cvp,
                           const struct cmb_process *pp)
 {
     cmb_assert_release(cvp != NULL);
